@@ -850,3 +850,41 @@ Proof.
   - apply next_group_Q. exact Hb2.
   - apply chain_Q; [exact Hb'' | exact Hs |]. rewrite app_length. pose proof (flat_map_Q_length (map body ls)). lia.
 Qed.
+
+(* ---------------------------------------------------------------- is the indentation uniform? *)
+(* what a block string needs: EVERY non-empty line behind the same k blanks (its common indentation
+   then grows by k and the value is unchanged).  textwrap.indent skips whitespace-only lines. *)
+Definition uniform (k : nat) (lines : list chars) : chars :=
+  NL :: flat_map (fun l => (match l with [] => [] | _ => spaces k end) ++ l ++ [NL]) lines ++ spaces k.
+
+(* a line that is not empty and consists of blanks only *)
+Definition only_blanks (l : chars) : bool :=
+  match l with [] => false | _ => forallb (ceq SP) l end.
+
+Lemma esc_char_blank c : blank (esc_char c) = ceq SP c.
+Proof. destruct c as [[] [] [] [] [] [] [] []]; reflexivity. Qed.
+
+Lemma blank_app a b : blank (a ++ b) = blank a && blank b.
+Proof. unfold blank. apply forallb_app. Qed.
+
+Lemma blank_esc3 : forall l, blank (esc3 l) = forallb (ceq SP) l.
+Proof.
+  apply esc3_ind.
+  - reflexivity.
+  - intros r _. reflexivity.
+  - intros c r E IH. rewrite esc3_other by exact E. rewrite blank_app, esc_char_blank, IH. reflexivity.
+Qed.
+
+Lemma pad_uniform k l : only_blanks l = false ->
+  pad k l = match l with [] => [] | _ => spaces k end.
+Proof.
+  unfold pad, only_blanks. rewrite blank_app, blank_esc3. destruct l as [|c r]; intro H; [reflexivity|].
+  rewrite H. reflexivity.
+Qed.
+
+Lemma embedded_uniform k lines : existsb only_blanks lines = false -> embedded k lines = uniform k lines.
+Proof.
+  intro H. unfold embedded, uniform, indented. f_equal. f_equal.
+  induction lines as [|l ls IH]; [reflexivity|]. cbn [existsb] in H. apply orb_false_iff in H as [H1 H2].
+  cbn [flat_map]. rewrite pad_uniform by exact H1. rewrite IH by exact H2. reflexivity.
+Qed.
